@@ -74,6 +74,14 @@ def self_stores(r: Result):
                 obj = e.state.loc.get(b.value.id) if e.state is not None else None
                 if obj is r.self_term and obj is not None:
                     out.append((e, b.attr, "subscript"))
+            else:
+                # alias of a container held in self state:  d = self.attr ; d[k] = v
+                from .terms import root_of
+                root = root_of(e.data["obj"])
+                while root.op in ("ite", "assume"):
+                    root = root_of(root.args[1])
+                if root.op == "attr" and root.args[0] is r.self_term and r.self_term is not None:
+                    out.append((e, root.args[1], "subscript through an alias"))
     return out
 
 
